@@ -9,8 +9,8 @@ EXTENDS BodyRules, Json, IOUtils
 
 Trace == ndJsonDeserialize(IOEnv.TRACE)
 
-VARIABLES l, bad
-tvars == <<l, bad>>
+VARIABLES l, bad, keymemo     \* keymemo: <<set-of-keys, key string>> of the previous Key event, or <<>> (C16 canonicity)
+tvars == <<l, bad, keymemo>>
 Ev == Trace[l]
 
 \* ---- lexicographic order on names (TLC has none): explicit byte order of the alphabet in use
@@ -39,7 +39,35 @@ At(s, body, path, unk) ==
 
 UnderOpaque(op, p) == \E q \in op : Len(q) < Len(p) /\ SubSeq(p, 1, Len(q)) = q
 
-V(prop, what) == [l |-> l, prop |-> prop, what |-> what, case |-> Ev.case, layout |-> Ev.layout]
+\* ---- C16: every feature sees the effective schema ------------------------------------------
+\* probe attribute items (name p_*) of the document with the schema of the body they are written in
+RECURSIVE ProbeItems(_, _, _)
+ProbeItems(s, body, path) ==
+  UNION { IF body[i].k = "attr"
+          THEN (IF Len(body[i].name) > 2 /\ SubSeq(body[i].name, 1, 2) = "p_" /\ s # Nil
+                THEN {[path |-> path \o <<i>>, known |-> Has(s.attrs, body[i].name)]} ELSE {})
+          ELSE IF s = Nil \/ ~Has(s.blocks, body[i].type) \/ s.blocks[body[i].type].body = Nil THEN {}
+          ELSE ProbeItems(Effective(s.blocks[body[i].type], body[i]).schema, body[i].body, path \o <<i>>)
+        : i \in DOMAIN body }
+
+TopLinks(S, D) ==
+  UNION { IF D[i].k = "block" /\ Has(S.blocks, D[i].type)
+          THEN { <<<<i>>, x[1], x[2]>> : x \in LinksP(S.blocks[D[i].type], D[i]) } ELSE {} : i \in DOMAIN D }
+
+FeatViol(e) ==
+  LET S == e.schema  D == e.doc  O == e.obs
+      known == { p.path : p \in {q \in ProbeItems(S, D, <<>>) : q.known} }
+      feats == {"tokens", "hover", "targets", "origins"}
+  IN  { [l |-> l, prop |-> "C16", what |-> f \o " does not see the body schema selected by the block's dependency keys", case |-> e.case, layout |-> e.layout]
+          : f \in {f \in feats : ToSet(O.feat[f]) # known} }
+      \cup (IF O.lstatus # "ok" THEN {[l |-> l, prop |-> "C16", what |-> "LinksInFile failed: " \o O.lstatus, case |-> e.case, layout |-> e.layout]}
+            ELSE IF ToSet(O.links) # TopLinks(S, D)
+            THEN {[l |-> l, prop |-> "C16", what |-> "documentation links are not attached to exactly the selecting labels/attributes", case |-> e.case, layout |-> e.layout]}
+            ELSE {})
+
+V(prop, what) == [l |-> l, prop |-> IF prop = "C15" /\ Ev.feat THEN "C16" ELSE prop,
+                  what |-> IF prop = "C15" /\ Ev.feat THEN "validation does not see the selected body schema: " \o what ELSE what,
+                  case |-> Ev.case, layout |-> Ev.layout]
 
 BodyViol(e) ==
   LET S == e.schema  D == e.doc  C == e.cur  O == e.obs
@@ -75,18 +103,30 @@ BodyViol(e) ==
           \cup (IF ~StrictlySorted(O.cands) THEN {V("C07", "label candidates not sorted or duplicated")} ELSE {})
    ELSE {})
 
-TInit == l = 1 /\ bad = {}
+\* Key events arrive in two passes: "A" ordered so that listings of one set are adjacent, "B" so that equal keys
+\* are adjacent; comparing neighbours then decides "same set <=> same key" over the whole universe.
+KeyViol(e) ==
+  LET ks == << ToSet(e.ls), ToSet(e.as) >> IN
+  IF keymemo = <<>> THEN {} ELSE
+  (IF keymemo[1] = ks /\ keymemo[2] # e.key
+   THEN {[l |-> l, prop |-> "C16", what |-> "the same set of dependency keys yields different schema keys depending on the listing order", case |-> e.case, layout |-> 0]} ELSE {})
+  \cup (IF keymemo[1] # ks /\ keymemo[2] = e.key
+        THEN {[l |-> l, prop |-> "C16", what |-> "two different sets of dependency keys share one schema key", case |-> e.case, layout |-> 0]} ELSE {})
+
+TInit == l = 1 /\ bad = {} /\ keymemo = <<>>
 
 Step ==
   /\ l <= Len(Trace)
   /\ l' = l + 1
-  /\ bad' = bad \cup (IF Ev.ev = "Body" THEN BodyViol(Ev) ELSE {})
+  /\ bad' = bad \cup (IF Ev.ev = "Body" THEN BodyViol(Ev) \cup (IF Ev.feat THEN FeatViol(Ev) ELSE {})
+                      ELSE IF Ev.ev = "Key" THEN KeyViol(Ev) ELSE {})
+  /\ keymemo' = IF Ev.ev = "Key" THEN << << ToSet(Ev.ls), ToSet(Ev.as) >>, Ev.key >> ELSE keymemo
 
 Finish ==
   /\ l = Len(Trace) + 1
   /\ JsonSerialize(IOEnv.VOUT, [consumed |-> l - 1, bad |-> bad])
   /\ l' = l + 1
-  /\ UNCHANGED bad
+  /\ UNCHANGED <<bad, keymemo>>
 
 TNext == Step \/ Finish
 TSpec == TInit /\ [][TNext]_tvars
